@@ -192,16 +192,9 @@ def getWcs (j : Json) : Except String (Wcs SkyQ ℚ) := do
   let loc ← (← rows "loc").mapM fun
     | [lon, lat, s, nc, ns, nd] => pure ((⟨lon, lat⟩ : SkyQ), (⟨s, ⟨nc, ns⟩, nd⟩ : Local ℚ))
     | _ => .error "loc row needs 6 numbers"
-  -- "fs": PixCoord.from_sky of the query positions (absent = same as s2p)
-  let fs ← match fieldD j "fs" .null with
-    | .null => pure s2p
-    | _ => (← rows "fs").mapM fun
-      | [lon, lat, px, py] => pure ((⟨lon, lat⟩ : SkyQ), (⟨px, py⟩ : Pt ℚ))
-      | _ => .error "fs row needs 4 numbers"
   pure ⟨fun q => (s2p.lookup q).getD ⟨sentinel, sentinel⟩,
         fun p => (p2s.lookup p).getD ⟨sentinel, sentinel⟩,
-        fun q => (loc.lookup q).getD ⟨sentinel, ⟨sentinel, sentinel⟩, sentinel⟩,
-        fun q => (fs.lookup q).getD ⟨sentinel, sentinel⟩⟩
+        fun q => (loc.lookup q).getD ⟨sentinel, ⟨sentinel, sentinel⟩, sentinel⟩⟩
 
 def c06Ops : List (String × Handler) := [
   -- pixel region -> sky -> pixel; membership of pixel positions before / after
